@@ -283,7 +283,7 @@ def run_history(hist):
             if len(long_results) > n0:
                 results_by_op[i] = long_results[-1]
             faulted = eff['op'] == 'fsc' and bool(eff.get('rate') or eff.get('faults'))
-            mark = (w.seq, len(w.log), dict(w.counts), w.tmpn, len(w.points))
+            mark = (w.seq, len(w.log), dict(w.counts), w.tmpn, len(w.points), w.listing_rng.getstate() if w.listing_rng is not None else None)
             ckey = None
             if eff['op'] == 'parse' or (eff['op'] == 'compile' and not eff.get('modules')):
                 # what objects made for this operation alone yield is a function of the operation: computed once per process
@@ -313,6 +313,8 @@ def run_history(hist):
             # reference runs leave no trace in the world: seeded fault coins are indexed by event number, and a child
             # interpreter that skips the reference runs must meet the same faults
             w.seq, w.counts, w.tmpn = mark[0], mark[2], mark[3]
+            if mark[5] is not None:
+                w.listing_rng.setstate(mark[5])      # the order in which directories are listed is drawn from the world too
             del w.log[mark[1]:]
             del w.points[mark[4]:]
             if eff['op'] == 'compile' and eff.get('solo') and isinstance(b, dict) and hist.get('fresh', True):
